@@ -307,7 +307,7 @@ WIDTHS = {"short": 2, "unsigned short": 2, "int": 4, "unsigned int": 4, "float":
           "long long": 8, "unsigned long long": 8, "double": 8}
 
 
-def run_h(prog, res, floor=4):
+def run_h(prog, res, floor=2):
     """a multi-byte unit is loaded only where the whole unit is inside the buffer: in the hand-written helpers of the
     bytevector libraries, a load `*(T*)(p + i)` of w = sizeof(T) > 1 bytes from a byte-pointer parameter p, whose index
     i is bounded by a dominating comparison with a never-assigned parameter L of the same function (`i + k < L`,
